@@ -91,7 +91,7 @@ def g_split(draw):
     c["perm"] = gen.permutation(draw, n)
     c["blocks"] = gen.composition(draw, n)
     c["inplace"] = gen.boolean(draw)
-    c["from_empty"] = gen.choice(draw, ["no", "fresh", "reset"])
+    c["from_empty"] = gen.choice(draw, ["no", "fresh", "reset", "resized"])
     return c
 
 
@@ -120,6 +120,14 @@ def c_split(ctx, case):
     if case["inplace"] and case.get("from_empty", "no") != "no":
         # the usual accumulator idiom: start from an empty (or reset) container and += every block
         acc = sut.GMMStats(p["C"], p["F"])
+        if case["from_empty"] == "resized":
+            # a container of another shape that held something, re-dimensioned through the public resize()
+            acc = sut.GMMStats(p["C"] + 1, p["F"] + 2)
+            acc.n = acc.n + 1.0
+            acc.t = 3
+            acc.resize(p["C"], p["F"])
+            ctx.check(acc.t == 0 and acc.n.shape == (p["C"],) and acc.sum_px.shape == (p["C"], p["F"]) and not np.any(acc.n),
+                      "resize() did not give an empty container of the new shape", "resize")
         if case["from_empty"] == "reset":
             acc += parts[-1]
             acc.reset()
